@@ -178,6 +178,15 @@ Theorem C18_json_shape : forall x l,
 Proof. exact parse_json_shape. Qed.
 Print Assumptions C18_json_shape.
 
+(** "loaded as is", for the loader model: an object written with plain string keys and values
+    (no quote, backslash or control character) loads as exactly those pairs — later duplicates
+    winning, first position kept *)
+Theorem C18_json_flat_object_as_is : forall ps,
+  Forall simple_pair ps ->
+  json_loads (render_object ps) = Ok (VDict (dict_of_pairs (map str_pair ps))).
+Proof. exact json_loads_render_object. Qed.
+Print Assumptions C18_json_flat_object_as_is.
+
 (** total: no argument list makes a (non-json) parser raise; deterministic: a Gallina function
     of the argument list; None and [] are the same input *)
 Theorem C18_parsers_total_deterministic :
@@ -306,11 +315,14 @@ Example C18_parsers_nonvacuous :
      = Ok (Some [(VStr "a", VBool true); (VStr "b", VDict [(VStr "c", VNone)])])
   /\ parse_json (Some ["[1]"]) = Err "TypeError" json_type_error_msg
   /\ parse_json (Some ["{""a"":01}"]) = Err "json.decoder.JSONDecodeError" ""
+  /\ render_object [("k", "v w"); ("k", "z")] = "{""k"":""v w"",""k"":""z""}"
+  /\ Forall simple_pair [("k", "v w"); ("k", "z")]
+  /\ parse_json (Some ["{""k"":""v"; "w"",""k"":""z""}"]) = Ok (Some [(VStr "k", VStr "z")])
   /\ kv_of "a=b=c" = ("a", "b=c")
   /\ (exists l1 s l2, ["a=b=c"; "x y"; "a=2"] = (l1 ++ s :: l2)%list /\ kv_of s = ("a", "2")
         /\ forall s', In s' l2 -> key_of s' <> "a").
 Proof.
-  vm_compute. repeat split.
+  vm_compute. repeat split; try (repeat constructor; fail).
   exists ["a=b=c"; "x y"], "a=2", []. repeat split. intros s' [].
 Qed.
 
